@@ -258,11 +258,18 @@ ROLES = ["init", "final", "interval", "duration", "values", "returns", "benchmar
 def argrole_rule(model, res):
     f = model.func("result.metrics.core.performance_metrics")
     n_sites = 0
-    for n in ast.walk(f.node):
+    from ..model import FuncInfo
+    # the registry function and the private helpers of its module that it calls (a block moved into a helper stays covered)
+    nodes = list(ast.walk(f.node))
+    for n0 in list(nodes):
+        if isinstance(n0, ast.Call) and isinstance(n0.func, ast.Name) and n0.func.id.startswith("_"):
+            h = model.resolve_name(f.module, n0.func.id)
+            if isinstance(h, FuncInfo) and h.module is f.module:
+                nodes.extend(ast.walk(h.node))
+    for n in nodes:
         if not (isinstance(n, ast.Call) and isinstance(n.func, ast.Name)):
             continue
         callee = model.resolve_name(f.module, n.func.id)
-        from ..model import FuncInfo
         if not isinstance(callee, FuncInfo) or callee.module.name != "demeter.result.metrics.calculator":
             continue
         n_sites += 1
